@@ -39,6 +39,13 @@ impl<'a> Ctx<'a> {
     }
     fn violation(&mut self, sys: &RealSys, sig: &str, what: String, extra: Value) {
         let log = sys.log.lock().clone();
+        // phase 2 of C03 leg B (every command may be stalled between the two routing decisions): whatever
+        // form the damage takes, it is the one recorded finding "command routed with the metadata of before the migration"
+        let (sig, what) = if self.prop == "C03" && STALL_MODE.load(Ordering::SeqCst) == 2 {
+            ("stalled-command-routed-with-metadata-of-before-the-migration".to_string(), format!("[{}] {}", sig, what))
+        } else {
+            (sig.to_string(), what)
+        };
         self.rep.violation(format!("{}:real:{}", self.prop, sig), what, json!({"sub_seed": self.sub_seed, "leg": "real-sockets", "http_log": log, "detail": extra}));
     }
 }
@@ -720,8 +727,23 @@ pub fn run(rep: &mut Report, prop: &'static str, n: u64, threads: usize) {
         STALL_MODE.store(1, Ordering::SeqCst);
         rep.assumptions.push("leg B injects stalls of 15-75 ms (probability 1/3) at the verif hook between the migration-map and the cluster-map decision of send_cmd_ctx, for commands that a migrating task has just admitted for local execution".to_string());
     }
+    run_phase(rep, prop, n, threads, 0);
+    if prop == "C03" {
+        // phase 2: the recorded finding (section 4 of DESIGN.md) is reproduced in a few scenarios of their own
+        STALL_MODE.store(2, Ordering::SeqCst);
+        let before = rep.counter("real_migrations_run_under_traffic");
+        run_phase(rep, prop, if rep.is_thorough() { 24 } else { 6 }, threads.min(6), 0x51a11);
+        let ran = rep.counter("real_migrations_run_under_traffic") - before;
+        rep.count("real_phase2_scenarios_with_unrestricted_stalls", ran);
+        STALL_MODE.store(1, Ordering::SeqCst);
+        rep.count("real_stalls_injected", STALLS_INJECTED.load(Ordering::SeqCst));
+        undermoon::common::verif::set_callback(None);
+    }
+}
+
+fn run_phase(rep: &mut Report, prop: &'static str, n: u64, threads: usize, salt: u64) {
     let next = Arc::new(AtomicU64::new(0));
-    let seed = rep.seed ^ 0x4ea1;
+    let seed = rep.seed ^ 0x4ea1 ^ salt;
     let table = Arc::new(slot_keys());
     let mut handles = vec![];
     for _ in 0..threads {
@@ -765,9 +787,5 @@ pub fn run(rep: &mut Report, prop: &'static str, n: u64, threads: usize) {
             Ok(l) => rep.merge(l),
             Err(_) => rep.inconclusive("real-socket leg: worker thread panicked"),
         }
-    }
-    if prop == "C03" {
-        rep.count("real_stalls_injected", STALLS_INJECTED.load(Ordering::SeqCst));
-        undermoon::common::verif::set_callback(None);
     }
 }
